@@ -1252,6 +1252,28 @@ def _filled_only_from_pops(loop, name, shrink):
     return True
 
 
+def _next_value_temp(loop, counter, tmp):
+    """`tmp = counter + k` (k a positive constant) is a top-level statement of the loop body, the only store to `tmp`
+    in the loop, and every store to `counter` comes after it: `counter = tmp` then moves the counter up by k"""
+    defs = [(i, st) for i, st in enumerate(loop.body) for n in ast.walk(st)
+            if isinstance(n, ast.Name) and isinstance(n.ctx, (ast.Store, ast.Del)) and n.id == tmp]
+    if len(defs) != 1:
+        return False
+    i, st = defs[0]
+    if not (isinstance(st, ast.Assign) and len(st.targets) == 1 and pat.is_name(st.targets[0], tmp)
+            and isinstance(st.value, ast.BinOp) and isinstance(st.value.op, ast.Add)):
+        return False
+    v = st.value
+    k = v.right if pat.is_name(v.left, counter) else v.left if pat.is_name(v.right, counter) else None
+    if k is None or not (isinstance(pat.const_value(k), (int, float)) and pat.const_value(k) > 0):
+        return False
+    for j, other in enumerate(loop.body):
+        if j <= i and any(isinstance(n, ast.Name) and isinstance(n.ctx, (ast.Store, ast.Del)) and n.id == counter
+                          for n in ast.walk(other)):
+            return False
+    return True
+
+
 def _measure_progress(loop):
     """ranking by a sum of bounded measures read off the conjuncts of the loop test, whatever their mix:
          c < B, c <= B, B > c, c != B      B - c        progress: c += k / c = c + k (k a positive constant)
@@ -1286,6 +1308,12 @@ def _measure_progress(loop):
             if isinstance(op, (ast.Lt, ast.LtE)):
                 if isinstance(l, ast.Name) and invariant(r):
                     up.add(l.id)
+                elif isinstance(r, ast.BinOp) and isinstance(r.op, ast.Sub) and isinstance(r.right, ast.Name) \
+                        and invariant(r.left) and invariant(l):
+                    up.add(r.right.id)                  # k < B - c  is  c < B - k
+                elif isinstance(l, ast.BinOp) and isinstance(l.op, ast.Add) and isinstance(l.left, ast.Name) \
+                        and invariant(l.right) and invariant(r):
+                    up.add(l.left.id)                   # c + k < B  is  c < B - k
                 elif len_of(l) and invariant(r):
                     grow.add(len_of(l))
                 elif len_of(r) and isinstance(l, ast.Constant) and isinstance(l.value, int) and l.value >= 0:
@@ -1312,6 +1340,8 @@ def _measure_progress(loop):
                     or (pat.is_name(v.right, t) and isinstance(pat.const_value(v.left), (int, float)) and pat.const_value(v.left) > 0)):
                 return True
             if t in flags and isinstance(v, ast.Constant) and v.value is flags[t]:
+                return True
+            if t in up and isinstance(v, ast.Name) and _next_value_temp(loop, t, v.id):
                 return True
         if isinstance(st, ast.Expr) and isinstance(st.value, ast.Call) and isinstance(st.value.func, ast.Attribute) \
                 and isinstance(st.value.func.value, ast.Name):
@@ -1689,7 +1719,9 @@ def r01_13(ctx):
     out = Outcome("R01.13", "split_two_jordans cuts each of the two curves at its own side of every crossing: the first at "
                             "(a_i, u_i), the second at (b_i, v_i), indices and parameters kept together", floor=3)
     fn = ctx.fn("shape.FollowPath.split_two_jordans")
-    inters = [(0, 2, Fr(1, 4), Fr(2, 3)), (0, 1, Fr(3, 4), Fr(1, 5)), (3, 2, Fr(1, 2), Fr(1, 7)), (1, 0, Fr(1, 3), Fr(5, 6))]
+    # ... two of them at a vertex of one curve and inside a segment of the other (the split ignores the parameters 0 and 1)
+    inters = [(0, 2, Fr(1, 4), Fr(2, 3)), (0, 1, Fr(3, 4), Fr(1, 5)), (3, 2, Fr(1, 2), Fr(1, 7)), (1, 0, Fr(1, 3), Fr(5, 6)),
+              (2, 3, Fr(0), Fr(2, 5)), (2, 1, Fr(3, 8), Fr(1)), (1, 3, Fr(1), Fr(4, 9)), (3, 0, Fr(5, 7), Fr(0))]
 
     class BoxT(StandIn):
         def __init__(self, meets):
@@ -1731,7 +1763,8 @@ def r01_13(ctx):
                                         "curves whose boxes are apart are split all the same", where=fn.where())
             continue
         for cv, want in ((A, sorted({(a, u) for a, _, u, _ in inters})), (B, sorted({(b, v) for _, b, _, v in inters}))):
-            got = sorted({p for ix, nd in cv.splits for p in zip(ix, nd)})
+            got = sorted({p for ix, nd in cv.splits for p in zip(ix, nd) if 0 < p[1] < 1})
+            want = [p for p in want if 0 < p[1] < 1]
             mismatched = any(len(ix) != len(nd) for ix, nd in cv.splits)
             if got == want and not mismatched and len(cv.splits) >= 1:
                 out.ok(fn.qname, f"curve {cv.name} is split at its own {len(want)} (segment, parameter) pairs", where=fn.where())
